@@ -37,6 +37,7 @@ def verify(sdir, props, tier="quick"):
     d, repo = scratch()
     try:
         shutil.copy(os.path.join(sdir, "demo.py"), os.path.join(repo, "demo_seeded.py"))
+        shutil.copy(os.path.join(sdir, "demo.py"), os.path.join(repo, "demo.py"))  # some demos import themselves by name in a child process
         rc0, out0 = run([PY, "demo_seeded.py"], repo, {"PYTHONPATH": repo})
         rc, out = run(["git", "apply", os.path.join(sdir, "patch.diff")], repo)
         if rc:
